@@ -687,8 +687,8 @@ structure Scan where
   pos : Nat                     -- running byte offset (binary) or column (ASCII)
 
 /-- the `if scalar.PropertyName == PlyPropertyK { … }` block for component `k`.
-`forceTy` is the extra unconditional `scalarType = scalar.Type` of the binary 4-vector's W block
-(reader_vector4.go:73). -/
+`forceTy` was the extra unconditional `scalarType = scalar.Type` of the binary 4-vector's W block (reader_vector4.go:73),
+removed by fix 8c2f8cb: `scanProp` now always passes `false`, the mixed-type check is live for W as for X/Y/Z. -/
 def scanComponent (pname : Bytes) (pty : SType) (forceTy : Bool) (s : Scan) (k : Nat) (cname : Bytes) : Scan :=
   if pname ≠ cname then s else
   let ty0 := if forceTy then some pty else s.ty
@@ -698,7 +698,7 @@ def scanComponent (pname : Bytes) (pty : SType) (forceTy : Bool) (s : Scan) (k :
 
 def scanProp (binary : Bool) (names : List Bytes) (s : Scan) (p : Bytes × SType) : Scan :=
   let s' := (names.zipIdx).foldl
-    (fun acc (cname, k) => scanComponent p.1 p.2 (binary && names.length = 4 && k = 3) acc k cname) s
+    (fun acc (cname, k) => scanComponent p.1 p.2 false acc k cname) s
   { s' with pos := s'.pos + (if binary then p.2.size else 1) }
 
 def allSome {β : Type} : List (Option β) → Option (List β)
